@@ -68,7 +68,32 @@ so that the renderings of the earlier modules stay byte-identical):
     `[e for x, y in zip(a, b)]` is `[e[x := t[0], y := t[1]] for t in zip(a, b)]`;
   * `a, b = h(…)` and `d[k] = h(…)` for a nested multi-statement helper `h` are inlined like `x = h(…)`.
 
-Additions of phase 6 (refactor round 3, notes/PHASE6_neutral_refactors_round3.md; all of them leave the renderings of the
+Additions of phase 6 (orchestration code, see notes/PHASE6_A.md; only with `extract_funcs(..., orch=True)`, which implies
+`plumbing=True`; earlier renderings stay byte-identical):
+  * EFFECTS: a call as a statement (result discarded) that is not a logger call / list mutation is `.yield <call>`: the
+    value the external returns is appended to the function's output list = its effect trace;
+  * BOUND-METHOD CALLS: `self.m(a, k=b)` for a method `m` of the same class that is translated EARLIER in the same
+    module is hoisted out of the expression as the statement `.callFn tmp <m>Src.params <m>Src.body [a, b]` (arguments in the
+    order of `m`'s signature, constant defaults filled in).  Hoisting is only done from positions that are evaluated
+    unconditionally and exactly once, and only when everything Python evaluates BEFORE the call in that expression is
+    a name / constant / attribute chain or an earlier hoisted call (so the order of evaluation is preserved);
+    otherwise TranslationError;
+  * `try: <one statement> except Exception [as e]: …` is `.tryExcept`; the body must be one statement without effects
+    (no `.yield`, only effect-free callees), `e` must not be used outside the handler; no `else` / `finally`, exactly
+    one handler, class `Exception` only;
+  * `x.attr = e`: `.setAttr`.  For `self` of a method the function is flagged `mutates_self` (such a method cannot be a
+    `callFn` callee); for another parameter it is flagged `mutates_params` and every call site must pass a local
+    variable that the calling statement rebinds (`q, f = self.m(q)`), so that the caller cannot observe that PyLite
+    updated a copy; for a local variable it must only ever be bound by calls and never aliased;
+  * `xs.extend(e)` on a local list (conditions of `append`) is `xs = xs + list(e)`;
+  * `for _, T in enumerate(it)` with an index variable that is used nowhere is `for T in it`;
+  * `f(a)(b)` is `.ext "call" [f(a), b]`; a closed nested def used as a VALUE is the external constant `closure#<k>`;
+  * calls of same-file classes/functions: constant defaults of omitted parameters are filled in, keywords are sorted
+    when at most one value is not PURE (names, constants, attribute chains, `not`, `and/or`, conditional expressions
+    of those);
+  * a constructor may also read / `append` to the attributes it has stored (`self._xs.append(v)` on a `self._xs = []`).
+
+Additions of phase 6, second list (refactor round 3, notes/PHASE6_neutral_refactors_round3.md; all of them leave the renderings of the
 unchanged source byte-identical, none depends on `plumbing`):
   * `x is E.m` / `x is not E.m` with a member of an Enum class that defines no `__eq__`/`__ne__`/`__hash__` is `==` / `!=`
     (equality of such members IS identity); PyLite's own `is` stays reserved for `None`;
@@ -196,6 +221,19 @@ def _simple(e) -> bool:
     return isinstance(e, ast.Attribute) and _simple(e.value)
 
 
+def _pure(e) -> bool:
+    """an expression whose evaluation has no effect and raises nothing in PyLite (truth values are data there)"""
+    if _simple(e) or isinstance(e, ast.JoinedStr):      # an f-string is an opaque constant of the translation
+        return True
+    if isinstance(e, ast.IfExp):
+        return _pure(e.test) and _pure(e.body) and _pure(e.orelse)
+    if isinstance(e, ast.BoolOp):
+        return all(_pure(v) for v in e.values)
+    if isinstance(e, ast.UnaryOp) and isinstance(e.op, ast.Not):
+        return _pure(e.operand)
+    return False
+
+
 def _names_in(nodes) -> set:
     return {n.id for s in nodes for n in ast.walk(s) if isinstance(n, ast.Name)}
 
@@ -315,6 +353,8 @@ def normalise_loops(stmts: list, plumbing=False) -> list:
     return out
 
 
+_MUTATORS = ("append", "extend", "remove", "insert", "pop", "clear", "sort", "reverse", "update", "add", "discard",
+             "setdefault", "popitem", "fill", "resize")
 _LOG_METHODS = ("debug", "info", "warning", "error", "exception", "critical", "log")
 
 
@@ -332,12 +372,21 @@ def stdlib_loggers(tree: ast.AST) -> set:
     return out
 
 
+def _arg_defaults(a: ast.arguments) -> dict:
+    names = [x.arg for x in a.args]
+    return dict(zip(names[len(names) - len(a.defaults):], a.defaults))
+
+
 class Tr:
     def __init__(self, fn: ast.FunctionDef, enums: dict[str, list[str]], loggers=frozenset(), plumbing=False,
-                 opaque=(), module=None, cls=None):
+                 opaque=(), module=None, orch=False, cls=None, methods=None, meta=None):
         self.fn, self.enums, self.loggers, self.plumbing, self.module = fn, enums, loggers, plumbing, module
-        self.cls = cls              # the class the translated method is defined in (None for functions)
-        self.inline_depth = 0
+        # phase 6: `cls` = the class (ClassDef) the method lives in (None for functions), `methods` = {method name: lean name}
+        # of the methods of that class translated earlier in the module, `meta` = {lean name: facts about the translated callee}
+        self.orch, self.cls, self.methods, self.meta = orch, cls, dict(methods or {}), dict(meta or {})
+        self.self_name = fn.args.args[0].arg if (orch and cls is not None and fn.args.args) else None
+        self.mutates_self, self.mutates_params = False, set()
+        self.inline_depth = 0       # nesting of inlined module-level single-return helpers
         self.helpers = {s.name: s for s in fn.body if isinstance(s, ast.FunctionDef)}
         # helpers that are to be externals although they could be inlined (string parsing, …): given as
         # (name, position among the nested defs); found by name, or - after a renaming - by position
@@ -395,6 +444,8 @@ class Tr:
         if isinstance(e, ast.Name):
             if e.id in sub:
                 return sub[e.id]
+            if self.orch and e.id in self.helpers:
+                return self.closure(self.helpers[e.id])
             if e.id in self.helpers or e.id in self.enums:
                 raise TranslationError(f"`{e.id}` used as a value")
             if e.id not in self.bound:
@@ -563,6 +614,19 @@ class Tr:
                 return [x.arg for x in a.args][skip:]
         return None
 
+    def defaults(self, name: str) -> dict:
+        """{parameter: default expression} of a class / function defined at module level of the same file"""
+        for n in getattr(self.module, "body", []):
+            if isinstance(n, ast.FunctionDef) and n.name == name:
+                return _arg_defaults(n.args)
+            if isinstance(n, ast.ClassDef) and n.name == name:
+                inits = [m for m in n.body if isinstance(m, ast.FunctionDef) and m.name == "__init__"]
+                if inits:
+                    return _arg_defaults(inits[0].args)
+                return {m.target.id: m.value for m in n.body if isinstance(m, ast.AnnAssign)
+                        and isinstance(m.target, ast.Name) and m.value is not None}
+        return {}
+
     def canonical_call(self, e: ast.Call, sub):
         """`C(x, k=y)` for a callee `C` of the same file whose parameters are known: every argument becomes a keyword
         (`C(a=x, k=y)`), so that writing an argument positionally or by keyword gives the same translation"""
@@ -577,6 +641,12 @@ class Tr:
                 or set(sig[:len(e.args)]) & {k.arg for k in e.keywords}:
             return None
         kws = [ast.keyword(arg=sig[i], value=a) for i, a in enumerate(e.args)] + list(e.keywords)
+        if self.orch:
+            # constant defaults of the parameters that are not given are part of the call
+            given = {k.arg for k in kws}
+            for pname, d in self.defaults(f.id).items():
+                if pname not in given and isinstance(d, ast.Constant):
+                    kws.append(ast.keyword(arg=pname, value=d))
         return self.kwcall(ast.Call(func=f, args=[], keywords=kws), sub)
 
     def kwcall(self, e: ast.Call, sub):
@@ -585,7 +655,7 @@ class Tr:
         if any(k.arg is None for k in e.keywords) or any(isinstance(a, ast.Starred) for a in e.args):
             raise TranslationError(f"call with ** / * and keywords: {_dump(e)}")
         kws = list(e.keywords)
-        if sum(1 for k in kws if not _simple(k.value)) <= 1:
+        if sum(1 for k in kws if not (_pure(k.value) if self.orch else _simple(k.value))) <= 1:
             kws.sort(key=lambda k: k.arg)
         suffix = "(" + ",".join(k.arg + "=" for k in kws) + ")"
         vals = [self.expr(k.value, sub) for k in kws]
@@ -611,6 +681,20 @@ class Tr:
                 raise TranslationError(f"helper {h.name}: nonlocal / global / yield")
         k = [s.name for s in self.fn.body if isinstance(s, ast.FunctionDef)].index(h.name)
         return ("ext", f"helper#{k}", [self.expr(a, sub) for a in args])
+
+    def closure(self, h: ast.FunctionDef):
+        """a nested def used as a VALUE (handed on as a callable): the external constant `closure#<k>`; it must not
+        read variables of the enclosing function (its meaning would depend on the state)"""
+        own = {a.arg for n in ast.walk(h) if isinstance(n, (ast.FunctionDef, ast.Lambda))
+               for a in n.args.args + n.args.kwonlyargs + [x for x in (n.args.vararg, n.args.kwarg) if x]} | \
+              {n.id for n in ast.walk(h) if isinstance(n, ast.Name) and isinstance(n.ctx, ast.Store)}
+        for n in ast.walk(h):
+            if isinstance(n, ast.Name) and isinstance(n.ctx, ast.Load) and n.id not in own and n.id in self.bound:
+                raise TranslationError(f"nested def {h.name} is used as a value and reads the enclosing variable {n.id}")
+            if isinstance(n, (ast.Nonlocal, ast.Global, ast.Yield, ast.YieldFrom)):
+                raise TranslationError(f"nested def {h.name}: nonlocal / global / yield")
+        k = [s.name for s in self.fn.body if isinstance(s, ast.FunctionDef)].index(h.name)
+        return ("ext", f"closure#{k}", [])
 
     def positional_form(self, e: ast.Call, sub):
         """(modules translated WITHOUT `plumbing`) `C(a=x, b=y)` for a class / function `C` defined at module level of the same
@@ -680,6 +764,8 @@ class Tr:
         return False
 
     def call(self, e: ast.Call, sub):  # noqa: C901, PLR0911, PLR0912
+        if self.orch and self.is_mcall(e):
+            raise TranslationError(f"call of the translated method `{e.func.attr}` in a position it cannot be hoisted from")
         if isinstance(e.func, ast.Name) and e.func.id in self.module_opaque and e.func.id not in sub and not e.keywords \
                 and not any(isinstance(a, ast.Starred) for a in e.args):
             return ("ext", f"helper#{self.module_opaque[e.func.id]}", [self.expr(a, sub) for a in e.args])
@@ -776,6 +862,9 @@ class Tr:
             return ("ext", f".{f.attr}", [self.expr(f.value, sub)] + [self.expr(a, sub) for a in e.args])
         if isinstance(f, ast.Call) and isinstance(f.func, ast.Name) and not f.args and not f.keywords:
             return self.ext(f"{f.func.id}()", e.args, sub)
+        if self.orch and isinstance(f, ast.Call) and not starred:
+            # `g(a)(b)`: the callee is the VALUE `g(a)`
+            return ("ext", "call", [self.expr(f, sub)] + [self.expr(a, sub) for a in e.args])
         raise TranslationError(f"unsupported call: {_dump(e)}")
 
     def ext(self, name, args, sub):
@@ -876,7 +965,9 @@ class Tr:
     def mutation(self, s):
         """`<name>.append(v)` / `<name>.remove(v)` as a statement -> (name, method, v) else None"""
         if isinstance(s, ast.Expr) and isinstance(s.value, ast.Call) and isinstance(s.value.func, ast.Attribute) \
-                and s.value.func.attr in ("append", "remove") and isinstance(s.value.func.value, ast.Name) \
+                and s.value.func.attr in (("append", "remove", "extend") if self.orch else ("append", "remove")) \
+                and isinstance(s.value.func.value, ast.Name) \
+                and not (self.orch and s.value.func.value.id not in self.bound) \
                 and len(s.value.args) == 1 and not s.value.keywords and not isinstance(s.value.args[0], ast.Starred):
             return s.value.func.value.id, s.value.func.attr, s.value.args[0]
         return None
@@ -929,11 +1020,32 @@ class Tr:
                 if any(isinstance(t, ast.Name) and t.id == x for t in tg):
                     v = n.value
                     fresh = isinstance(v, (ast.List, ast.ListComp)) or (
-                        isinstance(v, ast.Call) and isinstance(v.func, ast.Name) and v.func.id == "list")
+                        isinstance(v, ast.Call) and isinstance(v.func, ast.Name) and v.func.id == "list") or (
+                        # phase 6: the list a translated method returns, when that is always a fresh unshared list
+                        self.is_mcall(v) and self.meta[self.methods[v.func.attr]]["returns_fresh"])
                     if not fresh:
                         raise TranslationError(f"`{x}` is mutated but bound to something that may be shared")
                 if isinstance(n.value, ast.Name) and n.value.id == x:
+                    if self.orch and self.stored_after_last_mutation(n, x):
+                        continue
                     raise TranslationError(f"`{x}` is mutated and aliased")
+
+    def stored_after_last_mutation(self, n, x: str) -> bool:
+        """`n` (`<target> = x`) is a statement at the top level of the function and no statement after it mentions
+        `x.append / remove / extend` or assigns an item of `x`: the shared list is never changed once it is shared"""
+        body = self.fn.body
+        if not any(n is st for st in body):
+            return False
+        later = body[[k for k, st in enumerate(body) if st is n][0] + 1:]
+        for st in later:
+            for m in ast.walk(st):
+                if isinstance(m, ast.Attribute) and isinstance(m.value, ast.Name) and m.value.id == x \
+                        and m.attr in ("append", "remove", "extend", "insert", "pop", "clear", "sort", "reverse"):
+                    return False
+                if isinstance(m, ast.Subscript) and isinstance(m.value, ast.Name) and m.value.id == x \
+                        and not isinstance(m.ctx, ast.Load):
+                    return False
+        return True
 
     def single_use_locals(self, stmts: list) -> list:
         """`x = E` directly followed by `return R` where the local `x` is bound nowhere else, read exactly once in the whole
@@ -988,10 +1100,17 @@ class Tr:
         return out
 
     def stmt(self, s) -> list:  # noqa: C901, PLR0911, PLR0912
+        if self.orch and isinstance(s, ast.FunctionDef) and self.helpers.get(s.name) is not s:
+            # a def inside a block is not collected as a helper: its calls would silently become externals
+            raise TranslationError(f"nested def `{s.name}` inside a block")
         if _is_docstring(s) or isinstance(s, (ast.Pass, ast.FunctionDef)):
             return []
         if self.is_log_call(s):
             return []
+        if self.orch:
+            r = self.orch_stmt(s)
+            if r is not None:
+                return r
         if self.plumbing and isinstance(s, ast.Expr) and isinstance(s.value, ast.Call) \
                 and isinstance(s.value.func, ast.Attribute) and s.value.func.attr == "setdefault" \
                 and isinstance(s.value.func.value, ast.Name) and len(s.value.args) == 2 and not s.value.keywords \
@@ -1019,6 +1138,8 @@ class Tr:
             self.check_local_list(x)
             if meth == "append":
                 return [("assign", x, ("bin", "add", ("var", x), ("tuple", [self.expr(v)])))]
+            if meth == "extend":
+                return [("assign", x, ("bin", "add", ("var", x), ("call", "list", [self.expr(v)])))]
             return [("assign", x, ("call", "remove", [("var", x), self.expr(v)]))]
         if isinstance(s, (ast.Assign, ast.AnnAssign)) and s.value is not None:
             tg = s.targets[0] if isinstance(s, ast.Assign) and len(s.targets) == 1 else getattr(s, "target", None)
@@ -1093,7 +1214,261 @@ class Tr:
             if not isinstance(exc, ast.Name) or s.cause is not None:
                 raise TranslationError(f"unsupported raise: {_dump(s)}")
             return [("raise", exc.id)]
+        if self.orch and isinstance(s, ast.Expr) and isinstance(s.value, ast.Call):
+            # a call whose result is discarded: an EFFECT; what the external returns is recorded in the trace
+            f = s.value.func
+            if isinstance(f, ast.Attribute) and f.attr in _MUTATORS and not (isinstance(f.value, ast.Name)
+                                                                              and f.value.id not in self.bound):
+                # a container method that changes its receiver in place, in a form the value semantics cannot follow
+                raise TranslationError(f"in-place `{f.attr}` on something that is not a plain local list: {_dump(s)}")
+            return [("yield", self.expr(s.value))]
         raise TranslationError(f"unsupported statement: {_dump(s)}")
+
+    # ---------------------------------------------------------------- phase 6: methods, effects, try, attribute assignment
+    def is_mcall(self, e) -> bool:
+        """`self.m(…)` for a method `m` of the same class that is translated (earlier in the module)"""
+        return (self.orch and self.self_name is not None and isinstance(e, ast.Call)
+                and isinstance(e.func, ast.Attribute) and isinstance(e.func.value, ast.Name)
+                and e.func.value.id == self.self_name and e.func.attr in self.methods)
+
+    def mcall_args(self, e: ast.Call):
+        """-> (lean name of the callee, its arguments in the order of its signature; constant defaults filled in)"""
+        lean = self.methods[e.func.attr]
+        m = self.meta[lean]
+        params, dflt = m["src_params"][1:], m["defaults"]
+        if any(isinstance(a, ast.Starred) for a in e.args) or any(k.arg is None for k in e.keywords) \
+                or len(e.args) > len(params):
+            raise TranslationError(f"call of {e.func.attr}: * / ** / too many arguments")
+        given = dict(zip(params, e.args))
+        for k in e.keywords:
+            if k.arg not in params or k.arg in given:
+                raise TranslationError(f"call of {e.func.attr}: unexpected keyword {k.arg}")
+            given[k.arg] = k.value
+        out = []
+        for q in params:
+            if q in given:
+                out.append(given[q])
+            elif q in dflt and isinstance(dflt[q], ast.Constant):
+                out.append(dflt[q])
+            else:
+                raise TranslationError(f"call of {e.func.attr}: no value for parameter {q}")
+        src_order = [a for a in list(e.args) + [k.value for k in e.keywords] if not _pure(a)]
+        if [a for a in out if not _pure(a)] != src_order:
+            raise TranslationError(f"call of {e.func.attr}: keywords change the order of evaluation")
+        return lean, out
+
+    def callfn(self, target: str, lean: str, args: list, rebound=()) -> tuple:
+        m = self.meta[lean]
+        if m["mutates_self"]:
+            raise TranslationError(f"call of {lean}, which assigns attributes of self")
+        for i in m["mutates_params"]:
+            a = args[i - 1]
+            if not (isinstance(a, ast.Name) and a.id in rebound and a.id not in self.params):
+                raise TranslationError(f"{lean} assigns an attribute of its parameter #{i}: the caller must pass a local "
+                                       "variable that the calling statement rebinds")
+            self.check_local_obj(a.id)
+        return ("callFn", target, lean, [("var", self.self_name)] + [self.expr(a) for a in args])
+
+    def check_local_obj(self, x: str):
+        """an object whose attribute is assigned: a local that is only ever bound by calls and never aliased"""
+        if x in self.params or x not in self.bound:
+            raise TranslationError(f"attribute assignment on `{x}`, which is not a local variable")
+        for n in ast.walk(self.fn):
+            if isinstance(n, (ast.Assign, ast.AnnAssign)) and n.value is not None:
+                tg = n.targets if isinstance(n, ast.Assign) else [n.target]
+                names = [t.id for t in tg if isinstance(t, ast.Name)] + \
+                        [u.id for t in tg if isinstance(t, ast.Tuple) for u in t.elts if isinstance(u, ast.Name)]
+                if x in names and not isinstance(n.value, ast.Call):
+                    raise TranslationError(f"an attribute of `{x}` is assigned but `{x}` is bound to something that may be shared")
+                if isinstance(n.value, ast.Name) and n.value.id == x:
+                    raise TranslationError(f"an attribute of `{x}` is assigned and `{x}` is aliased")
+
+    def hoist(self, e, rebound=()):
+        """-> (pre, e'): the calls of translated methods in `e` as `callFn` statements `pre`, `e'` = `e` with the calls
+        replaced by the temporaries.  Only from positions evaluated unconditionally and once, and only when nothing
+        that could raise / have an effect is evaluated before the call in Python's order."""
+        has = lambda n: any(self.is_mcall(x) for x in ast.walk(n))     # noqa: E731
+        if e is None or not self.orch or self.self_name is None or not has(e):
+            return [], e
+        pre, st = [], {"impure": False}
+
+        def go(n, cond):        # noqa: C901, PLR0911, PLR0912
+            if _simple(n):
+                return n
+            if not has(n):
+                if not _pure(n):
+                    st["impure"] = True
+                return n
+            if cond:
+                raise TranslationError("call of a translated method in a conditionally / repeatedly evaluated position")
+            if self.is_mcall(n):
+                if st["impure"]:
+                    raise TranslationError("call of a translated method after something that may raise in the same expression")
+                lean, args = self.mcall_args(n)
+                args2 = [go(a, False) for a in args]
+                st["impure"] = False
+                t = self.tmp()
+                self.bound.add(t)
+                pre.append(self.callfn(t, lean, args2, rebound))
+                return ast.copy_location(ast.Name(id=t, ctx=ast.Load()), n)
+            if isinstance(n, ast.Call):
+                f2 = go(n.func, False)
+                a2 = [go(a, False) for a in n.args]
+                k2 = [ast.keyword(arg=k.arg, value=go(k.value, False)) for k in n.keywords]
+                st["impure"] = True
+                return ast.copy_location(ast.Call(func=f2, args=a2, keywords=k2), n)
+            if isinstance(n, ast.Attribute):
+                return ast.copy_location(ast.Attribute(value=go(n.value, False), attr=n.attr, ctx=n.ctx), n)
+            if isinstance(n, ast.Starred):
+                return ast.copy_location(ast.Starred(value=go(n.value, False), ctx=n.ctx), n)
+            if isinstance(n, ast.BinOp):
+                lft = go(n.left, False)
+                return ast.copy_location(ast.BinOp(left=lft, op=n.op, right=go(n.right, False)), n)
+            if isinstance(n, ast.UnaryOp):
+                return ast.copy_location(ast.UnaryOp(op=n.op, operand=go(n.operand, False)), n)
+            if isinstance(n, ast.BoolOp):
+                return ast.copy_location(ast.BoolOp(op=n.op, values=[go(v, k > 0) for k, v in enumerate(n.values)]), n)
+            if isinstance(n, ast.IfExp):
+                t = go(n.test, False)
+                return ast.copy_location(ast.IfExp(test=t, body=go(n.body, True), orelse=go(n.orelse, True)), n)
+            if isinstance(n, ast.Compare):
+                lft = go(n.left, False)
+                return ast.copy_location(ast.Compare(left=lft, ops=n.ops, comparators=[
+                    go(c, k > 0) for k, c in enumerate(n.comparators)]), n)
+            if isinstance(n, (ast.Tuple, ast.List)):
+                return ast.copy_location(type(n)(elts=[go(x, False) for x in n.elts], ctx=n.ctx), n)
+            if isinstance(n, ast.Subscript) and not isinstance(n.slice, (ast.Slice, ast.Tuple)):
+                v = go(n.value, False)
+                return ast.copy_location(ast.Subscript(value=v, slice=go(n.slice, False), ctx=n.ctx), n)
+            raise TranslationError(f"call of a translated method inside {type(n).__name__}")
+
+        new = go(e, False)
+        return pre, ast.fix_missing_locations(new)
+
+    def returns_fresh(self) -> bool:
+        """every `return` of the function hands out a list nobody else holds: a display / comprehension, or a local list
+        that satisfies the conditions of `check_local_list`"""
+        rets = [n for n in ast.walk(self.fn) if isinstance(n, ast.Return)]
+        if not rets or any(isinstance(n, (ast.FunctionDef, ast.Lambda)) for st in self.fn.body for n in ast.walk(st)):
+            return False
+        for r in rets:
+            if isinstance(r.value, (ast.List, ast.ListComp)):
+                continue
+            if not isinstance(r.value, ast.Name):
+                return False
+            try:
+                self.check_local_list(r.value.id)
+            except TranslationError:
+                return False
+        return True
+
+    def effect_free(self, stmts) -> bool:
+        """no `.yield`, and only effect-free callees, anywhere in the translated statements"""
+        def walk(t):
+            if isinstance(t, list):
+                return all(walk(x) for x in t)
+            if not isinstance(t, tuple) or not t:
+                return True
+            if t[0] == "yield":
+                return False
+            if t[0] == "callFn":
+                return not self.meta[t[2]]["effects"]
+            if t[0] == "lit":
+                return True
+            return all(walk(x) for x in t[1:])
+        return walk(stmts)
+
+    def orch_stmt(self, s):     # noqa: C901, PLR0911, PLR0912
+        """the phase-6 statement forms; None = not one of them (the ordinary translation applies)"""
+        if isinstance(s, ast.Try):
+            if s.orelse or s.finalbody or len(s.handlers) != 1 or len(s.body) != 1:
+                raise TranslationError("try: only `try: <one statement> except Exception [as e]: …`")
+            h = s.handlers[0]
+            if not (isinstance(h.type, ast.Name) and h.type.id == "Exception"):
+                raise TranslationError("try: only `except Exception`")
+            body = self.block(s.body)
+            if not self.effect_free(body):
+                raise TranslationError("try: the body has effects that would be lost when it raises")
+            if h.name:
+                inside = {id(n) for st in h.body for n in ast.walk(st)}
+                for n in ast.walk(self.fn):
+                    if isinstance(n, ast.Name) and n.id == h.name and id(n) not in inside:
+                        raise TranslationError(f"`{h.name}` of `except … as {h.name}` is used outside the handler")
+                x = h.name
+            else:
+                x = self.tmp()
+            self.bound.add(x)
+            return [("tryExcept", body, x, self.block(h.body))]
+        if isinstance(s, ast.For) and isinstance(s.target, ast.Tuple) and len(s.target.elts) == 2 \
+                and isinstance(s.target.elts[0], ast.Name) and isinstance(s.iter, ast.Call) \
+                and isinstance(s.iter.func, ast.Name) and s.iter.func.id == "enumerate" and "enumerate" not in self.bound \
+                and len(s.iter.args) == 1 and not s.iter.keywords and not isinstance(s.iter.args[0], ast.Starred):      # noqa: PLR2004
+            idx = s.target.elts[0].id
+            uses = sum(1 for n in ast.walk(self.fn) if isinstance(n, ast.Name) and n.id == idx)
+            if uses == 1:       # the index is bound here and used nowhere: `for T in it`
+                return self.stmt(ast.copy_location(ast.For(target=s.target.elts[1], iter=s.iter.args[0], body=s.body,
+                                                            orelse=s.orelse), s))
+            raise TranslationError("enumerate with an index that is used")
+        tg = None
+        if isinstance(s, ast.Assign) and len(s.targets) == 1:
+            tg = s.targets[0]
+        elif isinstance(s, ast.AnnAssign) and s.value is not None:
+            tg = s.target
+        if tg is not None:
+            rebound = [tg.id] if isinstance(tg, ast.Name) else \
+                [u.id for u in tg.elts if isinstance(u, ast.Name)] if isinstance(tg, ast.Tuple) else []
+            if isinstance(tg, ast.Attribute) and isinstance(tg.value, ast.Name):
+                x = tg.value.id
+                pre, v = self.hoist(s.value)
+                if x == self.self_name:
+                    self.mutates_self = True
+                elif x in [a.arg for a in self.fn.args.args]:
+                    self.mutates_params.add([a.arg for a in self.fn.args.args].index(x))
+                else:
+                    self.check_local_obj(x)
+                return pre + [("setAttr", x, tg.attr, self.expr(v))]
+            if isinstance(tg, ast.Name) and self.is_mcall(s.value):
+                lean, args = self.mcall_args(s.value)
+                pre, args2 = [], []
+                for a in args:
+                    p1, a1 = self.hoist(a)
+                    if pre and p1 and not all(_pure(x) for x in args2):
+                        raise TranslationError("call of a translated method after something that may raise")
+                    pre += p1
+                    args2.append(a1)
+                return pre + [self.callfn(tg.id, lean, args2, rebound)]
+            pre, v = self.hoist(s.value, rebound)
+            if pre:
+                new = ast.Assign(targets=[tg], value=v)
+                return pre + self.stmt(ast.fix_missing_locations(ast.copy_location(new, s)))
+            return None
+        if isinstance(s, ast.AugAssign):
+            pre, v = self.hoist(s.value)
+            if pre:
+                if not _simple(s.target):
+                    raise TranslationError("augmented assignment of a non-trivial target with a method call")
+                return pre + self.stmt(ast.copy_location(ast.AugAssign(target=s.target, op=s.op, value=v), s))
+            return None
+        if isinstance(s, ast.Return) and s.value is not None:
+            pre, v = self.hoist(s.value)
+            return pre + self.stmt(ast.copy_location(ast.Return(value=v), s)) if pre else None
+        if isinstance(s, ast.Expr):
+            pre, v = self.hoist(s.value)
+            if pre:
+                if isinstance(v, ast.Name):         # `self.m(…)` as a statement: only its effects count
+                    return pre
+                return pre + self.stmt(ast.copy_location(ast.Expr(value=v), s))
+            return None
+        if isinstance(s, ast.If):
+            pre, v = self.hoist(s.test)
+            return pre + self.stmt(ast.copy_location(ast.If(test=v, body=s.body, orelse=s.orelse), s)) if pre else None
+        if isinstance(s, ast.For):
+            pre, v = self.hoist(s.iter)
+            return pre + self.stmt(ast.copy_location(ast.For(target=s.target, iter=v, body=s.body, orelse=s.orelse), s)) \
+                if pre else None
+        if isinstance(s, (ast.Raise, ast.Assert)) and any(self.is_mcall(n) for n in ast.walk(s)):
+            raise TranslationError("call of a translated method inside raise / assert")
+        return None
 
     def assign(self, target, value):
         if isinstance(target, ast.Name):
@@ -1155,6 +1530,16 @@ def normalise_names(params, body, scoped=False):
                 names[t[1]] = outer
                 hidden.remove(outer)
             return (k, x, it) + rest
+        if k == "callFn":                     # the arguments are evaluated before the result is bound
+            args = walk(t[3])
+            return (k, nm(t[1]), t[2], args)
+        if k == "setAttr":
+            v = walk(t[3])
+            return (k, nm(t[1]), t[2], v)
+        if k == "tryExcept":
+            body_ = walk(t[1])
+            x = nm(t[2])
+            return (k, body_, x, walk(t[3]))
         if k == "inlineCall":                 # the block is run before the result is bound
             body_ = walk(t[2])
             return (k, nm(t[1]), body_)
@@ -1172,7 +1557,7 @@ def normalise_names(params, body, scoped=False):
     return new_params, walk(body), names
 
 
-def canonical_init_prefix(body: list) -> list:
+def canonical_init_prefix(body: list, empties=False) -> list:
     """The leading run of initialisations with literals (`x = 0`, `a, b = 0, False`) is split into single assignments
     and ordered by the first occurrence of the variable in the rest of the body: these statements are independent of
     each other, so writing them in another order (or as one tuple assignment) is the same function - and, with the
@@ -1180,7 +1565,7 @@ def canonical_init_prefix(body: list) -> list:
     run, i = [], 0
     while i < len(body):
         s = body[i]
-        if s[0] == "assign" and s[2][0] == "lit":
+        if s[0] == "assign" and (s[2][0] == "lit" or (empties and s[2] == ("tuple", []))):    # phase 6: also `x = []`
             run.append((s[1], s[2]))
         elif s[0] == "unpack" and s[2][0] == "tuple" and len(s[1]) == len(s[2][1]) and all(e[0] == "lit" for e in s[2][1]):
             run += list(zip(s[1], s[2][1]))
@@ -1251,18 +1636,26 @@ def constructor_as_function(fn: ast.FunctionDef) -> ast.FunctionDef:
 
 
 def translate_function(fn: ast.FunctionDef, enums, loggers=frozenset(), scoped=False, plumbing=False,
-                       opaque=(), module=None, cls=None) -> dict:
+                       opaque=(), module=None, orch=False, cls=None, methods=None, meta=None) -> dict:
+    src_params, dflt = [p.arg for p in fn.args.args], _arg_defaults(fn.args)
+    static = any(isinstance(d, ast.Name) and d.id in ("staticmethod", "classmethod") for d in fn.decorator_list)
     if plumbing and fn.name == "__init__":
-        fn = constructor_as_function(fn)
+        fn, cls = constructor_as_function(fn), None
     a = fn.args
     if a.vararg or a.kwarg or a.kwonlyargs or a.posonlyargs:
         raise TranslationError(f"{fn.name}: only plain positional parameters are supported")
-    tr = Tr(fn, enums, loggers, plumbing, opaque, module, cls)
-    params, body, names = normalise_names([p.arg for p in a.args], canonical_init_prefix(tr.block(fn.body)), scoped)
-    return {"params": params, "body": body, "names": names}
+    tr = Tr(fn, enums, loggers, plumbing, opaque, module, orch, None if static else cls, methods, meta)
+    raw = tr.block(fn.body)
+    params, body, names = normalise_names([p.arg for p in a.args], canonical_init_prefix(raw, orch), scoped)
+    out = {"params": params, "body": body, "names": names}
+    if orch:
+        out["meta"] = {"src_params": src_params, "defaults": dflt, "effects": not tr.effect_free(raw),
+                       "mutates_self": tr.mutates_self, "mutates_params": sorted(tr.mutates_params),
+                       "returns_fresh": tr.returns_fresh()}
+    return out
 
 
-def extract_funcs(src, funcs, scoped_comp=False, plumbing=False, opaque=None) -> dict:
+def extract_funcs(src, funcs, scoped_comp=False, plumbing=False, opaque=None, orch=False) -> dict:
     """funcs: [(Lean name without the `Src` suffix, file, dotted path of the def inside the file)];
     scoped_comp: comprehension variables are numbered in their own scope (modules added in phase 4);
     plumbing: the phase-5 additions that could change earlier renderings (see the module docstring);
@@ -1279,6 +1672,31 @@ def extract_funcs(src, funcs, scoped_comp=False, plumbing=False, opaque=None) ->
 
     enums = enum_classes([tree(f) for f in ENUM_FILES])
     out = {}
+    if orch:
+        # phase 6: methods of a class may call the methods of the same class that are translated EARLIER in `funcs`
+        plumbing, meta, methods = True, {}, {}
+        for lean, rel, path in funcs:
+            try:
+                fn, scopes = find_def(tree(rel), path)
+            except TranslationError:
+                # moved to another private module and re-exported from `rel`?  (`from ._x import name`)
+                try:
+                    rel2 = resolve_reexport(src, rel, path.split(".")[0])[0]
+                except (SyntaxError, OSError):
+                    rel2 = rel
+                if rel2 == rel:
+                    raise
+                rel = rel2
+                fn, scopes = find_def(tree(rel), path)
+            cls = scopes[-1] if isinstance(scopes[-1], ast.ClassDef) else None
+            key = (rel, path.rsplit(".", 1)[0]) if cls is not None else None
+            res = translate_function(fn, enums, stdlib_loggers(tree(rel)), scoped_comp, plumbing,
+                                     (opaque or {}).get(lean, ()), tree(rel), True, cls, methods.get(key, {}), meta)
+            meta[lean] = res.pop("meta")
+            if key is not None and fn.name != "__init__":
+                methods.setdefault(key, {})[fn.name] = lean
+            out[lean] = dict(res, path=f"{rel}: {path}")
+        return out
     for lean, rel, path in funcs:
         rel0 = rel
         try:
@@ -1294,7 +1712,7 @@ def extract_funcs(src, funcs, scoped_comp=False, plumbing=False, opaque=None) ->
             fn, scopes = find_def(tree(rel), path)
         cls = scopes[-1] if scopes and isinstance(scopes[-1], ast.ClassDef) else None
         out[lean] = dict(translate_function(fn, enums, stdlib_loggers(tree(rel)), scoped_comp, plumbing,
-                                            (opaque or {}).get(lean, ()), tree(rel), cls),
+                                            (opaque or {}).get(lean, ()), tree(rel), cls=cls),
                          path=f"{rel0}: {path}")
     return out
 
@@ -1395,6 +1813,12 @@ def _st(s, ind) -> str:  # noqa: PLR0911
         return f".inlineCall {_s(s[1])} {_block(s[2], ind)}"
     if k in ("ret", "yield"):
         return f".{k} {_e(s[1])}"
+    if k == "callFn":
+        return f".callFn {_s(s[1])} {s[2]}Src.params {s[2]}Src.body [" + ", ".join(_e(x) for x in s[3]) + "]"
+    if k == "setAttr":
+        return f".setAttr {_s(s[1])} {_s(s[2])} {_e(s[3])}"
+    if k == "tryExcept":
+        return f".tryExcept {_block(s[1], ind)} {_s(s[2])} {_block(s[3], ind)}"
     if k == "raise":
         return f".raise {_s(s[1])}"
     raise TranslationError(f"statement {s!r}")
